@@ -29,7 +29,7 @@ from vq.core import exc_cls
 
 HEADER = ("From Coq Require Import QArith Qcanon List.\nFrom VQ Require Import Base Sampler.\n"
           "Definition c (n : Z) (dn : positive) : Qc := Q2Qc (Qmake n dn).")
-GEN_FLAGS = core.COQ_FLAGS
+GEN_FLAGS = core.COQ_FLAGS + ["-Q", "genprops", "VQGP"]
 GENPROPS = "genprops/C19_gen.v"
 
 GENERAL_LEAVES = [0, 1, 2]
@@ -643,7 +643,7 @@ def run(ctx):
     ctx.cov["discharged"] += n_gen - len(tr["failed"])
     ctx.cov["checker_cmd"] += (" && /venv/bin/python harness/translate_sampling.py $VQ_REPO/src/vrpqubo/tools/sampling.py > coq/gen/SamplerGen.v"
                                " && coqc -Q theories VQ -Q props VQP -Q gen VQG gen/SamplerGen.v"
-                               " && coqc -Q theories VQ -Q props VQP -Q gen VQG genprops/C19_gen.v")
+                               " && coqc -Q theories VQ -Q props VQP -Q gen VQG -Q genprops VQGP genprops/C19_gen.v")
     ctx.cov["translator"] = {"status": tr["status"], "source": tr["source"], "generated_theorems": n_gen,
                              "failed": sorted(tr["failed"])}
     ctx.cov["trusted_base"].append("translator harness/translate_sampling.py (accepted statement shapes and printed Gallina); "
@@ -933,7 +933,7 @@ def run(ctx):
     if ctx.tier == "thorough":
         ctx.coqchk("VQP.C19")
         if tr["status"] == "ok":
-            rc, out = core.sh(["coqchk", "-silent", "-o"] + GEN_FLAGS + ["-Q", "genprops", "VQGP", "VQGP.C19_gen"], 1500, cwd=core.COQ)
+            rc, out = core.sh(["coqchk", "-silent", "-o"] + GEN_FLAGS + ["VQGP.C19_gen"], 1500, cwd=core.COQ)
             ctx.cov["coqchk_gen"] = {"ok": rc == 0, "tail": out[-800:]}
             if rc != 0:
                 ctx.tooling_failure("coqchk-gen", out[-3000:])
